@@ -212,7 +212,7 @@ def auto_extend_ticker(chk, prog):
     without crashing the process (time.NewTicker panics on a non-positive interval)"""
     from gosym import world, replay
     from gosym.core import GoPanic, PathAbort, Closure
-    fn = '(*' + A + 'MessageStreamer).Go$7'
+    fn = world.find_closure(prog, '(*' + A + 'MessageStreamer).Go', ['time.NewTicker'])
 
     def new_ticker(ex, args, name):
         d = args[0]
@@ -249,7 +249,7 @@ def auto_extend_ticker(chk, prog):
                 return ('panic:' in out['error'] or 'goroutine ' in out['error']), path
             return ('panic' in out['results'][0]), path
         try:
-            ex.call_value(Closure(fn, [ex.new_ptr(ms), ex.new_ptr(new_context(ex)), ex.new_ptr(ex.zero('sync.Mutex')), ex.new_ptr(MapObj())]), [])
+            ex.call_value(world.bind_closure(ex, fn, ms=ex.new_ptr(ms), ctx=ex.new_ptr(new_context(ex)), mu=ex.new_ptr(ex.zero('sync.Mutex')), pending=ex.new_ptr(MapObj())), [])
         except Stop:
             ob.reached(ex)
             return
